@@ -250,7 +250,7 @@ def check(rep):
                           args=(3, 2, 3)))
     for sp in specs:
         sp.update(setup="setup", encode=("watchdog", "queue"), jobs=4, query_timeout_s=900 if quick else 3000,
-                  loop_bound=40)
+                  loop_bound=400)
     racy = [("BaseObserver", "_handlers"), ("World", "mark")]
     conc = []
     for which in REMOVALS:
@@ -262,7 +262,7 @@ def check(rep):
                              harness="h_race", args=(2, which), steps=30))
     for sp in conc:
         sp.update(setup="setup", encode=("watchdog", "queue"), racy=racy, jobs=4,
-                  query_timeout_s=900 if quick else 3000, loop_bound=40)
+                  query_timeout_s=900 if quick else 3000, loop_bound=400)
     specs = specs + conc
     res = run_sessions(specs, workers=min(len(specs), 8))
     rep.add_results(res)
